@@ -74,7 +74,7 @@ def expected_maps(prof, tree, cfg):
 
 def run_writer(case, rec):
     prof = serial.Profile(case["profile"])
-    tree = prof.build(case["spec"])
+    tree = prof.build(case["spec"], late_move=case.get("late_move"))
     cfg = case["config"]
     w = walk(tree)
     key_map, value_map, kind_auto = expected_maps(prof, tree, cfg)
@@ -585,7 +585,24 @@ def run_mutated(case, rec):
 @st.composite
 def writer_cases(draw, tier):
     profile = draw(st.sampled_from(serial.PROFILES))
-    return {"profile": profile, "spec": draw(serial.tree_spec(profile)), "config": draw(serial.config(profile))}
+    case = {"profile": profile, "spec": draw(serial.tree_spec(profile)), "config": draw(serial.config(profile))}
+    if draw(st.sampled_from([0, 0, 1])):
+        # the clone that was registered last is moved in front of an earlier occurrence (three or more occurrences)
+        case["late_move"] = draw(st.integers(0, 3))
+        if profile in ("str", "obj", "obj_pop", "obj_fwd", "obj_falsy", "derived", "dictwrap"):
+            # directed: one label below three different top-level nodes
+            lab = draw(st.sampled_from(["b", "d", "a1"]))
+            spec = case["spec"]
+            for extra in ("x1", "x2", "x3"):
+                if len(spec) < 3:
+                    spec.append([{"x1": "c", "x2": "e", "x3": "a"}[extra], []])
+            for top in spec[:3]:
+                if top[0] != lab and all(ch[0] != lab for ch in top[1]):
+                    top[1].append([lab, []])
+            seen = set()
+            case["spec"] = [t for t in spec if not (t[0] in seen or seen.add(t[0]))]
+            gen.fix_sibling_ids(case["spec"])
+    return case
 
 
 READER_PROFILES = ["str", "obj", "obj_pop", "typed_str", "typed_obj", "typed_obj_pop", "fs", "fs_plain"]
